@@ -33,6 +33,20 @@ CLAIMED.update({
             FAMILY_NOTE + ' attractor(inside=) is claimed for targets within `inside`.', 'DESIGN.md §3 C11'),
 })
 
+TRANS_NOTE = ('Trusted: z3, dd node accessors, family = member pointwise (self-checked on seeded members in each run). '
+              'Bounds: 2-state-bit table families, 1-2 goals/holds, EnvInit := Win with qinit \\A \\A (every winning '
+              'state initial); product spaces <= 32 explicit states for the fair-cycle query.')
+CLAIMED.update({
+    'C02': ('model_checking',
+            'real gr1.make_streett_transducer run once per rigid-table game family; z3 discharges init / safety / closure / non-blocking / semantic Moore-independence one-step obligations and an unrolled Emerson-Lei fair-cycle query on explicit product states, all table constants existential; counterexample members rebuilt and checked by enumeration',
+            'Bounded solver check of the closed loop for every game of a family at once (2^20..2^44 games), every product state, every environment move and every resolution of the implementation\'s nondeterminism; liveness is decided exactly (no reachable violating cycle), not by a ranking certificate.',
+            TRANS_NOTE, 'DESIGN.md §3 C02'),
+    'C05': ('model_checking',
+            'as C02 for gr1.make_rabin_transducer with memory (_hold, _goal) and the Rabin acceptance in the fair-cycle query',
+            'Bounded solver check of the Rabin(1) closed loop over game families, four modes; found (and, after the fix, re-proves absent) the blocking defect with plus_one=True.',
+            TRANS_NOTE, 'DESIGN.md §3 C05'),
+})
+
 NOT_APPLICABLE = {
     'C16': 'Parser/precedence/round-trip: PLY regex lexer + table-driven LALR driver over token sequences; no arithmetic or bit-level state for a solver to range over. CrossHair on lexyacc.Parser.parse with symbolic strings (len <= 3) answers "Unable to meet precondition" after 90 s. See DESIGN.md §5.',
 }
